@@ -16,13 +16,13 @@ Theorem C09_literal_as_call :
   forall structs p g t z fuel en out,
     nth_error p g = Some {| fparams := []; fret := TInt t; fbody := SReturn (Some (ELit t z)) |} ->
     eval structs (call structs p (S fuel)) (ECall g []) en out = eval structs (call structs p (S fuel)) (ELit t z) en out.
-Proof. intros. apply lit_call_local. apply const_fn_returns. assumption. Qed.
+Proof. intros. apply lit_call_local with (fin := []). apply const_fn_returns. assumption. Qed.
 Print Assumptions C09_literal_as_call.
 
-(* side-effect-free subexpressions print nothing, so evaluating them earlier (bound to a fresh immutable local)
-   cannot change the order or content of the output *)
+(* side-effect-free subexpressions print nothing and leave every variable as it was (evaluation returns the environment it was
+   given), so evaluating them earlier (bound to a fresh immutable local) cannot change the order or content of the output *)
 Theorem C09_pure_subexpr_no_output_partial :
-  forall structs callf e en out v out', callfree e = true -> eval structs callf e en out = Ok v out' -> out' = out.
+  forall structs callf e en out r out', callfree e = true -> eval structs callf e en out = Ok r out' -> out' = out /\ snd r = en.
 Proof. exact callfree_no_output. Qed.
 Print Assumptions C09_pure_subexpr_no_output_partial.
 
